@@ -9,7 +9,7 @@ Records a terminal automaton cannot judge lexically are skipped and counted: seg
 import hashlib, json, os
 
 _RECS, _SEEN, _STATS = [], set(), dict(calls=0, kept=0, skipped_control_text=0, skipped_odd_control_segment=0, skipped_too_long=0, skipped_other=0, duplicates=0)
-MAX_EVENTS = 600          # Trace_Sgr re-evaluates the cell list per cell: keep records small
+MAX_EVENTS = 20000        # Trace_Sgr binds the cell lists once per record (LET): long records are affordable
 _CURRENT = [""]
 
 
